@@ -423,13 +423,18 @@ def aCopyBddTo (src : AMgr) (hu : Nat) (h : Nat) : AM Int := fun dst =>
 
 /-- `copy_vars(source, target)`: `target.add_var(var, level)` for `var in source.vars`
 (dict order = order of declaration, passed in by the driver as `names`) -/
+def copyVarStep (src : Tbl) (v : String) : M Unit :=
+  match src.vars[v]? with
+  | none => M.throw .value
+  | some l => fun m => match addVar v (some (l : Int)) m with
+    | (.ok _, m') => (.ok (), m')
+    | (.error e, m') => (.error e, m')
+
 def copyVarsCore (src : Tbl) (names : List String) : M Unit := do
   let dflt := src.vars.keys
   if !(names.length == dflt.length && names.all (dflt.contains ·)) then M.throw .sched
   for v in names do
-    match src.vars[v]? with
-    | none => M.throw .value
-    | some l => let _ ← addVar v (some (l : Int))
+    copyVarStep src v
 
 def aCopyVars (src : Tbl) (names : List String) : AM Unit := AM.liftM (copyVarsCore src names)
 
